@@ -84,6 +84,17 @@ CHECKS = {
         note=NOTE_COMMON + "Tor's grammar is transcribed by hand (numeric escapes rejected by the spec). Queue assumed idle.",
         technique="Lean 4 round-trip theorem (induction over pairs and characters) + differential correspondence with set_conf",
         ref='§4 C12'),
+    'C14': dict(
+        text=("C14_command (for every request whose words are space-free: the independent ADD_ONION parser reads back from the command exactly the key "
+              "specifier, every port mapping in order with its target, the flag list, and one ClientAuth per client with its token iff given), "
+              "C14_flags (each flag present iff its option), C14_keyspec (NEW:BEST / NEW:ED25519-V3 / type prefix added to bare blobs, typed blobs "
+              "unchanged), C14_reject_crlf (CR/LF in key material: nothing is sent), C14_custody (discard: no key stored whatever the reply says; "
+              "no key supplied: Tor's key kept; supplied key kept as sent; address = ServiceID.onion), C14_remove. Correspondence: the full product "
+              "of options through the two public create() methods against the fake Tor; command text, object state after the reply and DEL_ONION "
+              "text compared with the model, and the implementation's own command parsed by the Lean spec parser."),
+        note=NOTE_COMMON + "Port normalisation by _validate_ports is re-stated by the harness (not modelled); the descriptor wait is C15's subject.",
+        technique="Lean 4: parse-after-build theorem via generic split/join lemmas; decision-table theorems; differential correspondence (exhaustive product)",
+        ref='§4 C14'),
     'C15': dict(
         text=("C15_once (once fired, nothing fires again or changes the outcome), C15_unsubscribed_always (for every history: fired => unsubscribed, on "
               "success and failure alike), C15_foreign_inert / C15_foreign_uploaded_inert / C15_before_reply (events of other services and events "
